@@ -26,6 +26,9 @@ type Tok struct {
 
 type C14Case struct {
 	Toks []Tok `json:"toks"`
+	// Dangling: raw text appended to the line that leaves it untokenisable (a backslash with nothing to escape,
+	// an opening quote that is never closed): no rule can reflect such a line
+	Dangling string `json:"dangling,omitempty"`
 }
 
 func (c C14Case) args() []string {
@@ -63,7 +66,7 @@ func (c C14Case) line() string {
 	for i, a := range args {
 		q[i] = rulegen.ShQuote(a)
 	}
-	return strings.Join(q, " ")
+	return strings.Join(q, " ") + c.Dangling
 }
 
 func (c C14Case) Describe() string { return fmt.Sprintf("line=%q args=%q", c.line(), c.args()) }
@@ -115,6 +118,9 @@ func genC14(t *rapid.T) C14Case {
 	}
 	if rapid.IntRange(0, 2).Draw(t, "shuffle") == 0 {
 		c.Toks = rapid.Permutation(c.Toks).Draw(t, "perm")
+	}
+	if rapid.IntRange(0, 7).Draw(t, "dangling") == 0 {
+		c.Dangling = rapid.SampledFrom([]string{"\\", " junk\\", " \\", " -k=x\\", " 'open", " \"open", " -k 'k", "\\\\\\"}).Draw(t, "danglingtext")
 	}
 	return c
 }
@@ -213,6 +219,13 @@ func propC14(c C14Case) error {
 	r, err := flags.Parse(line)
 	if (r == nil) == (err == nil) {
 		return fmt.Errorf("%s: Parse returned (rule nil=%v, err=%v)", c.Describe(), r == nil, err)
+	}
+	if c.Dangling != "" {
+		if err == nil {
+			return fmt.Errorf("%s: accepted as %+v although the line cannot be tokenised (it ends inside an escape or a quote)", c.Describe(), r)
+		}
+		hC14.Class("untokenisable-line-refused")
+		return nil
 	}
 	for _, l := range otherRules { // the rule handed out must not depend on what is parsed afterwards
 		_, _ = flags.Parse(l)
